@@ -161,8 +161,36 @@ class MatchDesugar(ast.NodeTransformer):
         return out
 
 
+# leading parameters of networkx functions the analyses have summaries for: a call that names them (`mapping=...`) is the
+# same call as one that passes them by position, and is read as that
+_LEADING_PARAMS = {
+    "relabel_nodes": ("G", "mapping"),
+    "set_node_attributes": ("G", "values"),
+    "set_edge_attributes": ("G", "values"),
+    "get_node_attributes": ("G", "name"),
+    "get_edge_attributes": ("G", "name"),
+}
+
+
+def _positional_library_arguments(tree: ast.Module) -> None:
+    for n in ast.walk(tree):
+        if not (isinstance(n, ast.Call) and isinstance(n.func, ast.Attribute) and n.func.attr in _LEADING_PARAMS and n.keywords):
+            continue
+        if any(isinstance(a, ast.Starred) for a in n.args) or any(k.arg is None for k in n.keywords):
+            continue
+        names = _LEADING_PARAMS[n.func.attr]
+        while len(n.args) < len(names):
+            nxt = names[len(n.args)]
+            kw = next((k for k in n.keywords if k.arg == nxt), None)
+            if kw is None:
+                break
+            n.args.append(kw.value)
+            n.keywords.remove(kw)
+
+
 def desugar(tree: ast.Module) -> tuple[ast.Module, int, int]:
     """-> (tree, matches rewritten, matches left alone)"""
+    _positional_library_arguments(tree)
     if not any(isinstance(n, ast.Match) for n in ast.walk(tree)):
         return tree, 0, 0
     d = MatchDesugar()
